@@ -248,6 +248,32 @@ h!(c12_t_seq_vecdeque_wrapped, 9, {
     std::mem::forget(v);
 });
 
+// the same with one-byte elements (no varint loops): cheap enough for the quick tier
+h!(c12_q_seq_vecdeque_wrapped_u8, 8, {
+    let a: [u8; 3] = kani::any();
+    let mut v: VecDeque<u8> = VecDeque::with_capacity(4);
+    v.push_back(0); v.push_back(0); v.push_back(a[0]);
+    v.pop_front(); v.pop_front();
+    v.push_back(a[1]); v.push_back(a[2]);
+    let s: u8 = kani::any();
+    let (o, left, n) = rt(&v, s);
+    assert!(o.len() == 3 && o[0] == a[0] && o[1] == a[1] && o[2] == a[2], "all elements of a wrapped ring buffer round trip, in order");
+    assert!(left == 1 && n == 4, "length prefix + 3 bytes, exactly consumed");
+    kani::cover!(v.as_slices().1.len() > 0, "ring buffer is wrapped");
+    std::mem::forget((v, o));
+});
+h!(c12_q_seq_vecdeque_push_front_u8, 8, {
+    let a: [u8; 3] = kani::any();
+    let mut v: VecDeque<u8> = VecDeque::from(vec![a[1], a[2]]);
+    v.push_front(a[0]);
+    let s: u8 = kani::any();
+    let (o, left, _n) = rt(&v, s);
+    assert!(o.len() == 3 && o[0] == a[0] && o[1] == a[1] && o[2] == a[2], "push_front history round trips");
+    assert!(left == 1);
+    kani::cover!(a[0] != a[1], "distinct elements");
+    std::mem::forget((v, o));
+});
+
 // strings: symbolic ASCII bytes plus fixed multi-byte code points
 fn ascii_string<const L: usize>() -> String {
     let a: [u8; L] = kani::any();
